@@ -17,7 +17,7 @@ ASSUMPTIONS = ['trees whose names leave the route alphabet, or whose files have 
 MIME = {'txt': 'text/plain', 'html': 'text/html', 'css': 'text/css', 'js': 'text/javascript', 'xml': 'text/xml', 'csv': 'text/csv', 'tsv': 'text/tab-separated-values', 'vcard': 'text/vcard',
         'jpeg': 'image/jpeg', 'gif': 'image/gif', 'png': 'image/png', 'svg': 'image/svg+xml', 'woff': 'font/woff', 'woff2': 'font/woff2', 'json': 'application/json', 'pdf': 'application/pdf'}
 NAMES = ['a', 'b', 'index', 'main', 'app.min', 'x-y', 'x_y', 'a1', 'data', 'docs', 'search-index', 'myindex', 'index.html']      # names that merely end in / start with index.html are ordinary files
-DIRS = ['sub', 'deep', 'assets', 'docs', 'v1.2', 'a']
+DIRS = ['sub', 'deep', 'assets', 'docs', 'v1.2', 'a', 'v1.js', 'site.html', 'x.css']          # a directory may be named like a file with an omitted extension
 
 
 def tree_gen(rng):
@@ -58,8 +58,10 @@ def expected(case):
             try: v[0].decode('utf-8')
             except UnicodeDecodeError: raise KeyError('non UTF-8 text file')
         if name == b'index.html':
-            if 'html' not in case['omit']: put(segs, v)
-            segs = segs[:-1]
+            # the file's own path (with `html` omitted that is `dir/index`: the code serves it at the directory path only — known finding KF-C19-index-stem) and its directory path
+            put(segs if 'html' not in case['omit'] else segs[:-1] + [b'index'], v)
+            put(segs[:-1], v)
+            continue
         if segs:
             for e in case['omit']:
                 if segs[-1].endswith(b'.' + e.encode()):
@@ -97,6 +99,7 @@ def reqs_gen(rng, case):
 
 def mk(rng):
     case = {'tree': tree_gen(rng), 'mount': rng.choice(['/', '/static', '/s', '/assets/v1', '/a']), 'omit': rng.choice([[], [], ['html'], ['html', 'txt'], ['js'], ['css', 'html', 'json']])}
+    if case['omit'] and rng.random() < 0.4: case['omit_dots'] = True          # the extensions handed over as ".html" (the builder trims the leading dot)
     case['reqs'] = reqs_gen(rng, case)
     return {'case': case}
 
@@ -157,7 +160,9 @@ def judge(case, out, m):
         if exp is not None:
             if key in exp:
                 content, mime = exp[key]
-                if status != 200: v.append(('violation', f'GET {p!r}: status {status}, the file exists'))
+                if status != 200 and 'html' in case['omit'] and key and key[-1] == b'index' and key[:-1] in exp and exp[key[:-1]] == exp[key]:
+                    v.append(('violation', f'GET {p!r}: status {status}: with html omitted an index.html answers at its directory path only, not at .../index', 'KF-C19-index-stem'))
+                elif status != 200: v.append(('violation', f'GET {p!r}: status {status}, the file exists'))
                 elif body != content: v.append(('violation', f'GET {p!r}: body differs from the file'))
                 elif hs.get(b'Content-Length') != str(len(content)).encode() and hs.get(b'Transfer-Encoding') != b'chunked':
                     # what a client receives is what the message's framing delimits, not what happens to follow on the connection
